@@ -281,7 +281,8 @@ def run_stack(cfg, strategy, max_steps=60000):
         servlet = build(tree, S, calls_log)
         server = _server.Server(servlet, capacity=cfg['capacity'])
         for cyc in range(cfg.get('cycles', 1)):
-            info = {'enter_error': None, 'results': {}, 'exit_error': None, 'live_after_enter_fail': None}
+            info = {'enter_error': None, 'results': {}, 'exit_error': None, 'live_after_enter_fail': None,
+                    'calls_from': len(calls_log)}
             res['cycles'].append(info)
             try:
                 server.__enter__()
@@ -419,8 +420,10 @@ def check_results(r):
     """returns a list of (x, got, want) that are wrong (timeouts / rejections are not outcomes of the servlet)"""
     cfg = r['cfg']
     bad = []
-    calls = [(k, b) for k, b in r['calls']]
-    for cyc in r['cycles']:
+    allcalls = [(k, b) for k, b in r['calls']]
+    starts = [c.get('calls_from', 0) for c in r['cycles']] + [len(allcalls)]
+    for ci, cyc in enumerate(r['cycles']):
+        calls = allcalls[starts[ci]:starts[ci + 1]]
         for x, got in cyc['results'].items():
             if got in (['timeout'], ['rejected']):
                 continue
